@@ -2032,3 +2032,28 @@ mod tests {
         }
     }
 }
+
+#[cfg(substrate_fixed_verif)]
+pub(crate) mod verif_hook {
+    // thin wrappers, no logic; Err is flattened to the ParseErrorKind ordinal
+    use super::ParseErrorKind;
+    fn kind_code(e: super::ParseFixedError) -> u8 {
+        match e.kind {
+            ParseErrorKind::InvalidDigit => 1,
+            ParseErrorKind::NoDigits => 2,
+            ParseErrorKind::TooManyPoints => 3,
+            ParseErrorKind::Overflow => 4,
+        }
+    }
+    macro_rules! hooks {
+        ($($name:ident, $T:ty;)*) => { $(
+            pub fn $name(bytes: &[u8], radix: u32, int_nbits: u32, frac_nbits: u32) -> Result<($T, bool), u8> {
+                super::$name(bytes, radix, int_nbits, frac_nbits).map_err(kind_code)
+            }
+        )* };
+    }
+    hooks! {
+        from_str_i8, i8; from_str_u8, u8; from_str_i16, i16; from_str_u16, u16; from_str_i32, i32;
+        from_str_u32, u32; from_str_i64, i64; from_str_u64, u64; from_str_i128, i128; from_str_u128, u128;
+    }
+}
